@@ -262,6 +262,27 @@ def run(ctx):
                             ctx.violation("local matrices (tolocal) of " + lab + " do not scatter through the per-cell "
                                           "table to the assembled matrix", {"mesh": meshes.mesh_descr(m), "element": ename},
                                           {"what": "local-matrices", "of": lab.split()[0]})
+                    # rectangular local matrices: trial = this element, test = the vertex element of the mesh
+                    if elements.family(e) != "global":
+                        vb_ = Basis(m, m.elem(), intorder=2)
+                        Fr = BilinearForm(fields.generic_bilinear())
+                        cr = Fr.elemental(b, vb_)
+                        Ar = Fr.assemble(b, vb_).toarray()
+                        Lr = cr.tolocal()
+                        edv = vb_.element_dofs
+                        okR = Lr.shape == (ed.shape[1], edv.shape[0], ed.shape[0])
+                        if okR:
+                            Sr = np.zeros(Ar.shape)
+                            for k in range(ed.shape[1]):
+                                Sr[np.ix_(edv[:, k], ed[:, k])] += Lr[k]
+                            okR = np.allclose(Sr, Ar, rtol=1e-12, atol=1e-12 * max(1.0, float(np.abs(Ar).max())))
+                        ctx.count("local-matrices:rectangular")
+                        if not okR:
+                            ctx.violation("rectangular local matrices (tolocal, trial and test of different local size) do "
+                                          "not have shape (cells, Nbfun_test, Nbfun_trial) or do not scatter to the "
+                                          "assembled matrix", {"mesh": meshes.mesh_descr(m), "element": ename,
+                                                               "shape": list(Lr.shape)},
+                                          {"what": "local-matrices", "of": "rectangular"})
                 except Exception as ex:
                     ctx.violation("local matrices raised " + exc_kind(ex), {"element": ename, "err": repr(ex)},
                                   {"what": "raise-basis", "element": ename})
@@ -281,6 +302,49 @@ def run(ctx):
                                                          "spurious": sorted(set(got_sel) - set(want_sel))[:12]},
                                       {"what": "cell-dofs", "form": form, "element": ename.split("(")[0]})
                 ctx.count("cell-dofs-readout")
+                # restriction by DOF name given as a BARE STRING (not a list): exactly the DOFs whose name is that string
+                try:
+                    allv = b.get_dofs(elements=np.array(sel, dtype=np.int64))
+                    names_here = sorted(set(e.dofnames)) if hasattr(e, "dofnames") else []
+                    lname = list(e.dofnames) if hasattr(e, "dofnames") else []
+                    cnts = elements.counts(e)
+                    rd_ = e.refdom
+                    per_row = []
+                    per_row += [lname[r % cnts[0]] if cnts[0] else None for r in range(rd_.nnodes * cnts[0])]
+                    off = cnts[0]
+                    if m.dim() == 3:
+                        per_row += [lname[off + r % cnts[1]] if cnts[1] else None for r in range(rd_.nedges * cnts[1])]
+                    off += cnts[1]
+                    per_row += [lname[off + r % cnts[2]] if cnts[2] else None for r in range(rd_.nfacets * cnts[2])]
+                    off += cnts[2]
+                    per_row += [lname[off + r] for r in range(cnts[3])]
+                    if len(per_row) == ed.shape[0] and len(lname) == sum(cnts) \
+                            and elements.family(e) in ("h1", "hdiv", "hcurl", "global"):     # plain elements
+                        dname = {}
+                        clash = False
+                        for r in range(ed.shape[0]):
+                            for k in range(ed.shape[1]):
+                                if dname.setdefault(int(ed[r, k]), per_row[r]) != per_row[r]:
+                                    clash = True
+                        if not clash:
+                            for nm in names_here[:3]:
+                                flat = [int(v) for v in allv.flatten()]
+                                want_k = sorted(d for d in flat if dname[d] == nm)
+                                want_d = sorted(d for d in flat if dname[d] != nm)
+                                got_k = sorted(int(v) for v in allv.keep(nm).flatten())
+                                got_d = sorted(int(v) for v in allv.drop(nm).flatten())
+                                got_s = sorted(int(v) for v in b.get_dofs(elements=np.array(sel, dtype=np.int64),
+                                                                          skip=nm).flatten()) if len(nm) > 1 else want_d
+                                ctx.count("name-restriction-bare-string")
+                                if (got_k, got_d) != (want_k, want_d) or got_s != want_d:
+                                    ctx.violation("restriction of a DOF view by a name given as a bare string (keep / drop / "
+                                                  "skip) is not exactly the DOFs with that name",
+                                                  {"mesh": meshes.mesh_descr(m), "element": ename, "name": nm,
+                                                   "names": names_here}, {"what": "name-bare-string",
+                                                                          "element": ename.split("(")[0]})
+                                    break
+                except Exception as ex:
+                    ctx.count("name-restriction:raises:" + exc_kind(ex))
                 # the per-cell table of a basis restricted to a cell list (any order, repetitions, full length) is
                 # the whole table gathered by that list
                 lists = [list(sel)]
